@@ -19,8 +19,9 @@ EPS = 2.2e-16
 RULE = ("base runs of C06 with objective f1 + w*f2 (8 iterations); update function in "
         "{identity} x stop settings {ftol 0/1e-5/1e-2} x {ftarget None/reachable}, and "
         "{switch at EVERY update call k in 0..7} x rewrite in {rescale x0.2, x5; re-weight "
-        "w -> 0.2, 5, -3 recomputing every stored gradient; sign-flip/shift of the stored "
-        "gradient of EVERY non-empty subset of the stored points (maxcor <= 3)}; oracle: "
+        "w -> 0.2, 5, -3 recomputing every stored gradient; sign-flip/shift, or anti-curvature replacement, of the "
+        "stored gradient of EVERY non-empty subset of the stored points (maxcor <= 3), "
+        "returned in a new deque or in place in the deque that was passed}; oracle: "
         "identity => result, callback states and evaluation log bitwise equal to the run "
         "without update function; rewrite => every later pair is a bitwise difference of "
         "retained points and of the rewritten/later gradients (provenance search), has "
@@ -60,7 +61,15 @@ def cases(tier, variants):
             for k in range(1, K):
                 npts = min(b["maxcor"] + 1, k + 1) if k > 0 else 1
                 for mask in range(1, 2 ** npts):
-                    yield dict(b, part="flip", k=k, mask=mask)
+                    # letters: the rewritten sequence comes back in a new deque / in the
+                    # very deque object that was passed (rewritten in place)
+                    yield dict(b, part="flip", k=k, mask=mask, inplace=bool(mask % 2))
+                    # 'anti': the selected stored gradients are replaced by the previous
+                    # stored gradient minus a large multiple of the step (negative
+                    # curvature towards the predecessor AND across it: the pair bridging
+                    # a dropped point must be re-checked)
+                    if npts >= 2 and mask % 2 == 0:
+                        yield dict(b, part="anti", k=k, mask=mask, inplace=bool((mask >> 1) % 2))
 
 
 def chain_ok(points, grads, sk, yk):
@@ -169,10 +178,20 @@ def run(case):
             for i in range(len(Gl)):
                 if (case["mask"] >> i) & 1:
                     j = len(Gl) - 1 - i                  # bit 0 = newest stored point
-                    Gl[j] = -0.5 * Gl[j] + 0.1
+                    if part == "flip":
+                        Gl[j] = -0.5 * Gl[j] + 0.1
+                    elif j >= 1:
+                        st = Xl[j] - Xl[j - 1]
+                        lam = 10.0 * (np.linalg.norm(Gl[j] - Gl[j - 1]) + 1.0) / \
+                            (np.linalg.norm(st) + 1e-300)
+                        Gl[j] = Gl[j - 1] - lam * st
             newf, newf_old, newg = f0, f0_old, grad
         rec.update(X=Xl, G=[np.array(a, copy=True) for a in Gl], x=np.array(x, copy=True),
                    grad=np.array(newg, copy=True), nstored=len(Xl))
+        if case.get("inplace"):
+            for j in range(len(Gl)):
+                G[j] = Gl[j]
+            return newf, newf_old, newg, G
         return newf, newf_old, newg, deque(Gl)
     states = []
     try:
